@@ -71,6 +71,9 @@ package mvp6_0
 //@   ensures len(m.decodeBus.queue) == 0 && len(m.decodeBus.buffer) == 0 && len(m.controlBus.queue) == 0 && len(m.controlBus.buffer) == 0 && len(m.executeBus.queue) == 0 && len(m.executeBus.buffer) == 0 && len(m.writeBus.queue) == 0 && len(m.writeBus.buffer) == 0
 //@   ensures len(m.ctx.PendingWriteRegisters) == 0 && len(m.ctx.PendingReadRegisters) == 0
 //@   ensures m.controlUnit.pendings != nil && fresh(m.controlUnit.pendings)
+// (C03, C07; F27) no line stays marked as being fetched: the units that would
+// have delivered it are reset
+//@   ensures len(m.memoryManagementUnit.pendings) == 0
 //@   loop 0: invariant wired(m) && m.executeUnits == old(m.executeUnits) && (forall i :: 0 <= i && i < _idx0 ==> m.executeUnits[i].coroutine == nil)
 //@   loop 0: invariant m.fetchUnit.pc == pc && !m.fetchUnit.complete && !m.decodeUnit.pendingBranchResolution && !m.decodeUnit.ret
 
